@@ -26,6 +26,7 @@ DAY = datetime.timedelta(days=1)
 # validity windows are laid around NOW + CLOCK_OFFSET (see pv/props/c07.py: cases run
 # under a shifted clock)
 CLOCK_OFFSET = datetime.timedelta(0)
+SECONDS_AGO = [2]
 
 
 def new_key(rng, curve=None):
@@ -67,6 +68,12 @@ def make_cert(subject_cn, subject_pub, issuer_cn, issuer_key, window="valid", se
     elif window == "expired_recently":
         # within any time-zone offset of "now" (but hours away from it)
         nb, na = now - 400 * DAY, now - 3 * DAY / 24
+    elif window == "expired_seconds_ago":
+        # inside any tolerance somebody may think harmless (expired is expired); the clock
+        # read here is the real one, and time only moves on
+        nb = now - 400 * DAY
+        na = datetime.datetime.now(datetime.timezone.utc) + CLOCK_OFFSET - \
+            datetime.timedelta(seconds=SECONDS_AGO[0])
     elif window == "valid_soon":
         nb, na = now + 3 * DAY / 24, now + 400 * DAY
     elif window == "forever":
